@@ -40,6 +40,16 @@ Qed.
 Lemma P_vec_inplace_self : forall f (x : list R), c01_vec_inplace_self K f x = map (fun a => f a a) x.
 Proof. intros. apply (c01_vec_map K (fun a => f a a)). Qed.
 
+(* the scalar argument is the entry i0 of the receiver: read once before the loop (fix C01-8), every component combines its own old
+   value with the OLD value of entry i0 *)
+Lemma P_vec_elem : forall (g : nat -> R -> R -> R) (x : list R) i0,
+  length (c01_vec_elem K g x i0) = length x /\
+  forall i, i < length x -> c01_at K (c01_vec_elem K g x i0) i = g i (c01_at K x i) (c01_at K x i0).
+Proof.
+  intros. unfold c01_vec_elem. destruct (c01_vec_loop K (fun i v => g i v (c01_at K x i0)) x) as [L P].
+  split; [exact L|]. intros i Hi. apply (P i Hi).
+Qed.
+
 (* element access: what a store through operator[] / operator[][] / diagonal(i) changes *)
 Lemma P_access : forall r c (x : list R) (A : list (list R)) i j i' j' v, wf r c A -> i < length x -> i' < r -> j' < c ->
   c01_at K (c01_upd x i v) j = (if Nat.eqb i j then v else c01_at K x j) /\ length (c01_upd x i v) = length x /\
@@ -118,3 +128,9 @@ Proof.
   rewrite c01_set2_map, Hadd, Hmul, !(c01_get_map K1 K2 h H0). reflexivity.
 Qed.
 End Hom2.
+
+(* re-reading the scalar through the reference in every iteration (the loops before fix C01-8) is NOT that: x *= x[0] *)
+Lemma P_vec_elem_literal_refuted :
+  c01_vec_elem_literal c01_Z_ops (fun _ a k => a * k)%Z [2; 3; 4]%Z 0 = [4; 12; 16]%Z /\
+  c01_vec_elem c01_Z_ops (fun _ a k => a * k)%Z [2; 3; 4]%Z 0 = [4; 6; 8]%Z.
+Proof. split; vm_compute; reflexivity. Qed.
